@@ -234,7 +234,7 @@ def proof_obligations(pid):
     rc, out = sh("timeout 900 coqc -R . SCK Properties/%s.v" % pid, timeout=1000, cwd=COQ)
     return _pair_assumptions(open(path).read(), rc, out, res)
 
-TRANSLATORS = {"scoring": ("ScoringGen.v", "ScoringGenProof.v")}
+TRANSLATORS = {"scoring": ("ScoringGen.v", "ScoringGenProof.v"), "copeland": ("CopelandGen.v", "CopelandGenProof.v")}
 
 def translator_obligation(name):
     """regenerate the model of <name> from /repo's current source (harness/translate.py), compile it, and re-check the
